@@ -42,6 +42,14 @@ func (h *queryHarness) Gen(r *Rand, tier string, clean bool) any {
 	// grouping that is the open finding KF-C11-zone-sensitive-values, kept out
 	// of the generated data and re-observed through its fixed witness.
 	u := genUniverseZ(r, r.Range(4, 12), rich, false, h.prop == "C03")
+	if h.prop == "C11" && r.Chance(0.3) {
+		// values that only differ far behind the decimal point (distinct counts, group keys)
+		t := u[r.Intn(len(u))]
+		for _, oi := range []int{10, 29, 30} {
+			u = append(u, TSpec{t[0], t[1], oi})
+		}
+		u = dedupSpecs(u)
+	}
 	c := &QueryCase{Graphs: genGraphs(r, u, 3), Knobs: genKnobs(r)}
 	o := sopts{qopts: qopts{clean: clean, maxClauses: 3, aliases: 0.3, bounds: 0.5, crossKind: 0.15}, global: 0.15}
 	if r.Chance(0.15) || (tier == "thorough" && r.Chance(0.3)) {
